@@ -1304,6 +1304,8 @@ def parse_unitvalue(s="") :
         value = 0
         units = parse_units("")
     else :
+        if len(tok) > 2 :
+            raise ValueError("unexpected white space in the units of \""+s+"\".")
         value = float(tok[0])
         us = ""
         for i in range(1, len(tok)):
